@@ -12,6 +12,7 @@
 #include <errno.h>
 #include <limits.h>
 #include <unistd.h>
+#include <fcntl.h>
 
 static unsigned char *data = NULL;
 static size_t data_len = 0, data_cap = 0;
@@ -208,6 +209,15 @@ static const char *err_name (PError *e) {
 	return buf;
 }
 
+/* the class of an error as the model knows it (which code a failed open maps to is perror.c's business) */
+static const char *err_class (PError *e) {
+	if (e == NULL) return "none";
+	int c = p_error_get_code (e);
+	if (c == (int) P_ERROR_IO_INVALID_ARGUMENT) return "invalid";
+	if (c == (int) P_ERROR_IO_NOT_EXISTS) return "notexists";
+	return "other";
+}
+
 static size_t total_keys (PIniFile *ini, size_t *nsec) {
 	size_t n = 0;
 	PList *secs = p_ini_file_sections (ini);
@@ -281,6 +291,114 @@ static void do_life (char **t) {
 	printf (" S=%zu K=%zu ", ns, nk);
 	getters_with (ini, sec, key, "m", -1, 1, 2.5);
 	p_ini_file_free (ini);
+	putchar ('\n');
+	free (sec); free (key);
+}
+
+/* ---- a failing fclose (linked with -Wl,--wrap=fclose): the real call is always made, its result is scripted ---- */
+static int fclose_fail_armed = 0, fclose_calls = 0;
+int __real_fclose (FILE *f);
+int __wrap_fclose (FILE *f) {
+	int r = __real_fclose (f);
+	++fclose_calls;
+	if (fclose_fail_armed) { fclose_fail_armed = 0; errno = EIO; return EOF; }
+	return r;
+}
+
+/* P_WARNING prints on stdout: what the library prints during one call is captured in a scratch file (so that the answer
+ * line stays one line) and the number of warning lines is reported as `w=` */
+static char cap_path[64];
+static int capture_begin (void) {
+	fflush (stdout);
+	int save = dup (1);
+	int fd = open (cap_path, O_WRONLY | O_CREAT | O_TRUNC, 0600);
+	if (save < 0 || fd < 0) { perror ("capture"); exit (3); }
+	dup2 (fd, 1);
+	close (fd);
+	return save;
+}
+static int capture_end (int save) {
+	static char buf[4096];
+	fflush (stdout);
+	dup2 (save, 1);
+	close (save);
+	int fd = open (cap_path, O_RDONLY), w = 0;
+	if (fd < 0) return -1;
+	ssize_t n = read (fd, buf, sizeof buf - 1);
+	close (fd);
+	unlink (cap_path);
+	if (n < 0) return -1;
+	buf[n] = 0;
+	for (const char *p = buf; (p = strstr (p, "** Warning:")) != NULL; ++p) ++w;
+	return w;
+}
+
+/* lifec SEC KEY: the current file parsed while the parser's fclose reports a failure (C: result, error, is_parsed,
+ * number of fclose calls the parse made, content), then parsed again after the file changed on disk (Q: nothing changes);
+ * X E L D: objects for paths that fopen refuses / a directory, parsed with the failure armed (fopen fails: no fclose call at all) */
+static void do_lifec (char **t) {
+	int ok1, ok2;
+	char *sec = arg_str (t[1], &ok1), *key = arg_str (t[2], &ok2);
+	if (!ok1 || !ok2) { puts ("bad-op"); free (sec); free (key); return; }
+	if (write_file () != 0) { puts ("io-error"); free (sec); free (key); return; }
+	size_t ns, nk;
+	PIniFile *ini = p_ini_file_new (path);
+	if (ini == NULL) { puts ("new-failed"); free (sec); free (key); return; }
+	PError *err = NULL;
+	int before = fclose_calls;
+	fclose_fail_armed = 1;
+	int cap = capture_begin ();
+	pboolean r = p_ini_file_parse (ini, &err);
+	int w = capture_end (cap);
+	fclose_fail_armed = 0;
+	printf ("C r=%d err=%s p=%d fc=%d w=%d", r ? 1 : 0, err_name (err), p_ini_file_is_parsed (ini) ? 1 : 0, fclose_calls - before, w);
+	p_error_free (err);
+	nk = total_keys (ini, &ns);
+	printf (" S=%zu K=%zu ", ns, nk);
+	getters_with (ini, sec, key, "c", 7, 1, 0.5);
+	FILE *f = fopen (path, "wb");
+	if (f != NULL) { fputs ("[zz]\nzk=zv\n[zy]\nzk=1\n", f); fclose (f); }
+	err = NULL;
+	before = fclose_calls;
+	fclose_fail_armed = 1;
+	cap = capture_begin ();
+	r = p_ini_file_parse (ini, &err);
+	w = capture_end (cap);
+	fclose_fail_armed = 0;
+	printf (" Q r=%d err=%s p=%d fc=%d w=%d", r ? 1 : 0, err_name (err), p_ini_file_is_parsed (ini) ? 1 : 0, fclose_calls - before, w);
+	p_error_free (err);
+	nk = total_keys (ini, &ns);
+	printf (" S=%zu K=%zu ", ns, nk);
+	getters_with (ini, sec, key, "c", 7, 1, 0.5);
+	p_ini_file_free (ini);
+	/* the other outcomes of fopen, each with the failure armed: X a file that does not exist (ENOENT), E a path through a
+	 * regular file (ENOTDIR), L a name of 5000 bytes (ENAMETOOLONG), D a directory (opens; the first fgets fails: an empty file) */
+	static char longname[5100];
+	char other[4][96];
+	snprintf (other[0], sizeof other[0], "%s/missing.ini", dir_tmpl);
+	snprintf (other[1], sizeof other[1], "%s/x", path);
+	snprintf (other[3], sizeof other[3], "%s", dir_tmpl);
+	int k = snprintf (longname, sizeof longname, "%s/", dir_tmpl);
+	memset (longname + k, 'a', 5000);
+	longname[k + 5000] = '\0';
+	const char *paths[4] = { other[0], other[1], longname, other[3] };
+	const char *tags = "XELD";
+	for (int i = 0; i < 4; ++i) {
+		ini = p_ini_file_new (paths[i]);
+		if (ini == NULL) { puts (" new-failed"); free (sec); free (key); return; }
+		err = NULL;
+		before = fclose_calls;
+		fclose_fail_armed = 1;
+		cap = capture_begin ();
+		r = p_ini_file_parse (ini, &err);
+		w = capture_end (cap);
+		fclose_fail_armed = 0;
+		printf (" %c r=%d err=%s p=%d fc=%d w=%d", tags[i], r ? 1 : 0, err_class (err), p_ini_file_is_parsed (ini) ? 1 : 0, fclose_calls - before, w);
+		p_error_free (err);
+		nk = total_keys (ini, &ns);
+		printf (" S=%zu K=%zu", ns, nk);
+		p_ini_file_free (ini);
+	}
 	putchar ('\n');
 	free (sec); free (key);
 }
@@ -415,6 +533,7 @@ int main (void) {
 	p_libsys_init ();
 	if (mkdtemp (dir_tmpl) == NULL) { perror ("mkdtemp"); return 3; }
 	snprintf (path, sizeof path, "%s/f.ini", dir_tmpl);
+	snprintf (cap_path, sizeof cap_path, "%s/out.cap", dir_tmpl);
 	while (fgets (line, sizeof line, stdin)) {
 		char *toks[18];
 		int n = 0;
@@ -432,6 +551,7 @@ int main (void) {
 		else if ((!strcmp (op, "parse") || !strcmp (op, "gparse")) && n == 1) do_parse ();
 		else if ((!strcmp (op, "get") || !strcmp (op, "gget")) && n == 7) do_get (toks);
 		else if (!strcmp (op, "life") && n == 3) do_life (toks);
+		else if (!strcmp (op, "lifec") && n == 3) do_lifec (toks);
 		else if (!strcmp (op, "chomp") && n == 2) do_chomp (toks[1]);
 		else if (!strcmp (op, "strdup") && n == 2) do_strdup (toks[1]);
 		else if (!strcmp (op, "strtod") && n == 2) do_strtod (toks[1]);
